@@ -56,10 +56,20 @@ def check_schema(schema, acc=None):
     ref = lvs_ref.RefSchema(schema, FNS)
     lmax = ref.max_len()
     n = 0
+    prev_name = []
     for toks in lvsgen.query_names(min(lmax + 1, 5)):
         name = comp_name(toks)
         want = ref.match(name)
         n += 1
+        if n % 2 == 0:
+            # an application that only wants to know whether *something* matches stops after the first answer: the abandoned query
+            # must not leave anything behind for the next one (here: a query on another name, one step earlier in the enumeration)
+            try:
+                next(iter(ck.match(list(prev_name))), None)
+                any(True for _ in ck2.match(list(prev_name)))
+            except Exception:  # noqa
+                pass
+        prev_name = name
         for label, c in (('compiled', ck), ('loaded', ck2)):
             try:
                 got = lib_matches(c, list(name), ids)
